@@ -45,6 +45,14 @@ func scStore(r *Run) {
 	facR := storage.NewFactoryRAM()
 	facD := storage.NewFactoryDisk(dir)
 	fname := fmt.Sprintf("f%d.bin", T.Intn(3))
+	if T.Chance(1, 4) {
+		// a file of that name is left over from an earlier session, longer than what will be written now
+		junk := bytes.Repeat([]byte{0x5a}, Pick(T, 10, 5000, 200000))
+		if err := os.WriteFile(filepath.Join(dir, fname), junk, 0o644); err != nil {
+			panic(err)
+		}
+		r.Probe("stale-file-of-the-same-name")
+	}
 	fr, err := facR.NewFile(fname)
 	if err != nil {
 		r.Fail("newfile", "ram", "NewFile: %v", err)
@@ -366,6 +374,24 @@ func scStore(r *Run) {
 			if rd.eof[0] && rd.eof[1] {
 				continue
 			}
+			acts = append(acts, Action{"copy " + rd.name, 1, func() {
+				// the way an HTTP handler consumes a reader: io.Copy (which prefers WriterTo / ReaderFrom fast paths)
+				for k := 0; k < 2 && !r.Failed(); k++ {
+					if rd.eof[k] {
+						continue
+					}
+					var buf bytes.Buffer
+					_, err := io.Copy(&buf, rd.rc[k])
+					rest := rd.want[rd.pos[k]:]
+					if err != nil || !bytes.Equal(buf.Bytes(), rest) {
+						r.Fail("read-bytes", names[k]+":"+kindOf(rd.name)+":copy", "%s: io.Copy from offset %d delivered %d bytes (err %v), %d were left to read, or other content",
+							rd.name, rd.pos[k], buf.Len(), err, len(rest))
+						return
+					}
+					rd.pos[k], rd.eof[k] = len(rd.want), true
+				}
+				reads++
+			}})
 			acts = append(acts, Action{"read " + rd.name, 3, func() {
 				n := bufSizes[T.Intn(len(bufSizes))]
 				for k := 0; k < 2 && !r.Failed(); k++ {
